@@ -233,6 +233,36 @@ fn pp_multiframe_body(s: &mut Src, fmask: u8, inc_mask: u8, nint: usize, limit_m
 harness!(c07_pp_multiframe_q, 8, |s| { pp_multiframe_body(s, 1, 3, 2, 6); });
 harness!(c07_pp_multiframe_t, 11, |s| { pp_multiframe_body(s, 3, 7, 3, 8); });
 
+// ---- boundary offset A = W (thorough tier).  Polling-point analysis on a dedicated processor,
+// own callback with a late second step (1..8), 3-step interferer.
+// A: against the evaluation over [0, W) plus W if it is a step offset - must verify;
+// B (known finding c07-offset-equal-to-busy-window): against the literal evaluation over every
+//    offset in [0, W], restricted to inputs where the two evaluations differ - expected to fail.
+fn pp_boundary_body(s: &mut Src, literal: bool) {
+    let sup = Sup::Dedicated;
+    let own = Src1 { curve: SymCurve::any(s, 2, 7), cost: s.from(1, 1) };
+    let int = any_src1(s, 3, 3, 1);
+    let limit = s.from(1, 7);
+    let got = ros2::rta_polling_point_callback(&Dedicated::new(), &mk_rbf(&own), &mk_rbf(&int), Duration::from(limit));
+    let bw = |d: u64| own.rbf(d) + int.rbf(d);
+    let rhs = |a: u64, r: u64| {
+        let w = own.least_wcet(a + r);
+        own.rbf(a + 1) + int.rbf(spec::interference_interval(a, r, w))
+    };
+    let inside = spec::ecrts19_inside(&sup, limit, bw, rhs, |a| own.curve.na(a + 1) > own.curve.na(a));
+    let every = spec::ecrts19(&sup, limit, bw, rhs);
+    if literal {
+        assume(inside != every);
+        assert!(ok_value(&got) == every);
+    } else {
+        assert!(ok_value(&got) == inside);
+        cover!(matches!(inside, Some(r) if r >= 4), "Ok(R) with R >= 4");
+        cover!(inside != every, "the literal evaluation over [0, W] differs");
+    }
+}
+harness!(c07_pp_boundary_t, 11, |s| { pp_boundary_body(s, false); });
+harness!(c07_pp_boundary_b, 11, |s| { pp_boundary_body(s, true); });
+
 // the two forms of the specification's supply-bound function agree
 harness!(c07_spec_sbf_forms_agree, 20, |s| {
     let sup = any_sup(s, SupKind::Constrained, 3);
@@ -392,7 +422,7 @@ pub fn register(t: &mut Table) {
     reg!(t;
         c07_event_source_q, c07_timer_q, c07_pp_q, c07_chain_q,
         c07_event_source_t, c07_timer_t, c07_pp_t, c07_chain_t, c07_timer_dedicated_t,
-        c07_spec_sbf_forms_agree, c07_pp_multiframe_q, c07_pp_multiframe_t,
+        c07_spec_sbf_forms_agree, c07_pp_multiframe_q, c07_pp_multiframe_t, c07_pp_boundary_t, c07_pp_boundary_b,
         c07_rr_single_q, c07_rr_chain_q, c07_rr_single_t, c07_rr_chain_t, c07_rr_single_dedicated_t,
         c07_bw_single_t, c07_bw_chain_t,
     );
